@@ -42,7 +42,7 @@ def budget(tier):
 def generate(tp: Tape, tier: str):
     profile = tp.weighted([("hostile", 6), ("general", 3), ("reduce", 2), ("multi", 1)])
     case = c01.generate(tp, tier, profile=profile, allow_zero_default=True)
-    k = tp.weighted([("none", 8), ("qr_edge", 1), ("scan_many_chunks", 1)])
+    k = tp.weighted([("none", 8), ("qr_edge", 1), ("scan_many_chunks", 1), ("index_pairs", 1)])
     if k == "qr_edge":
         # tall-and-skinny inputs whose last row chunk is shorter than the others / than the column count
         m = tp.randint(1, 4)
@@ -57,6 +57,35 @@ def generate(tp: Tape, tier: str):
             inp = dict(shape=[r, q], chunks=[tp.choice([r, r, max(1, r // 2)]), tp.choice([q, q, max(1, q // 2)])],
                        dtype="float64", src=tp.choice(["asarray", "from_zarr"]), data_seed=tp.randint(0, 10**6), nan=False)
         case["prog"] = dict(inputs=[inp], steps=[dict(op=op, args=[0], p={})], outputs=[1])
+    elif k == "index_pairs":
+        # two advanced indices in one subscript (integer array / 1-d mask / integer on two axes): NumPy evaluates
+        # them, cubed supports at most one integer array after canonicalisation and must say so while building -
+        # whatever the chunk geometry and the number of selected elements happen to be
+        r, q = tp.randint(2, 6), tp.randint(2, 6)
+        c0, c1 = tp.randint(1, min(3, r)), tp.randint(1, min(3, q))
+        n = c0 + c1 if tp.coin(1, 2) else tp.randint(1, 4)
+        form = tp.choice(["arr_int", "int_arr", "mask_int", "mask_arr", "arr_mask"])
+
+        def mask(size, ntrue):
+            ntrue = max(1, min(size, ntrue))
+            pos = set(tp.shuffle(list(range(size)))[:ntrue])
+            return ["m", [i in pos for i in range(size)]]
+
+        if form == "arr_int":
+            idx = [["a", [tp.randint(0, r - 1) for _ in range(n)]], ["i", tp.randint(0, q - 1)]]
+        elif form == "int_arr":
+            idx = [["i", tp.randint(0, r - 1)], ["a", [tp.randint(0, q - 1) for _ in range(n)]]]
+        elif form == "mask_int":
+            idx = [mask(r, n), ["i", tp.randint(0, q - 1)]]
+        elif form == "mask_arr":
+            m_ = mask(r, n)
+            idx = [m_, ["a", [tp.randint(0, q - 1) for _ in range(sum(m_[1]))]]]
+        else:
+            m_ = mask(q, n)
+            idx = [["a", [tp.randint(0, r - 1) for _ in range(sum(m_[1]))]], m_]
+        inp = dict(shape=[r, q], chunks=[c0, c1], dtype=tp.choice(["int64", "float64"]),
+                   src=tp.choice(["asarray", "from_zarr"]), data_seed=tp.randint(0, 10**6), nan=False)
+        case["prog"] = dict(inputs=[inp], steps=[dict(op="getitem", args=[0], p=dict(idx=idx))], outputs=[1])
     elif k == "scan_many_chunks":
         # scans over many chunks: the supported chunk counts form a pattern (<= 5, or multiples of 5 at every level)
         nb = tp.choice([tp.randint(2, 12), 5 * tp.randint(2, 16), 25 * tp.randint(1, 3), tp.randint(13, 80)])
